@@ -851,3 +851,30 @@ func tokSpec(c byte, flags POptFlags) bool {
 func sepOrLws(buf []byte, a, b int, flags POptFlags) bool {
 	return forall(a, b, func(k int) bool { return isLWSc(buf[k]) || buf[k] == ptSep(flags) })
 }
+
+// ---- URI comparison (C15, the part that does not involve parameter/header lists) ----
+
+// uriIn: every component of a parsed URI lies inside a buffer of length L
+func uriIn(u *PsipURI, L int) bool {
+	return within(u.Scheme, L) && within(u.User, L) && within(u.Pass, L) && within(u.Host, L) &&
+		within(u.Port, L) && within(u.Params, L) && within(u.Headers, L)
+}
+
+// fieldEq / fieldCiEq: the bytes two fields denote are equal (exactly / ignoring ASCII letter case)
+func fieldEq(b1 []byte, f1 PField, b2 []byte, f2 PField) bool {
+	return f1.Len == f2.Len && forall(0, int(f1.Len), func(k int) bool { return b1[int(f1.Offs)+k] == b2[int(f2.Offs)+k] })
+}
+
+func fieldCiEq(b1 []byte, f1 PField, b2 []byte, f2 PField) bool {
+	return f1.Len == f2.Len && forall(0, int(f1.Len), func(k int) bool { return lowerc(b1[int(f1.Offs)+k]) == lowerc(b2[int(f2.Offs)+k]) })
+}
+
+// shortSpec: the documented short comparison: scheme and port unless skipped, user and password byte for
+// byte unless skipped, host ignoring letter case
+func shortSpec(u1 *PsipURI, buf1 []byte, u2 *PsipURI, buf2 []byte, flags URICmpFlags) bool {
+	return (flags&URICmpSkipScheme != 0 || u1.URIType == u2.URIType) &&
+		(flags&URICmpSkipPort != 0 || u1.PortNo == u2.PortNo) &&
+		(flags&URICmpSkipUser != 0 || fieldEq(buf1, u1.User, buf2, u2.User)) &&
+		(flags&URICmpSkipPass != 0 || fieldEq(buf1, u1.Pass, buf2, u2.Pass)) &&
+		fieldCiEq(buf1, u1.Host, buf2, u2.Host)
+}
